@@ -49,7 +49,7 @@ TraceInit == /\ all = ndJsonDeserialize(TraceFile)
 Start(t) == /\ tid = 0
             /\ tid' = t /\ pos' = 0 /\ todo' = all[t].steps /\ all' = <<>>
             /\ cfg' = CfgOf(all[t].c)
-            /\ UNCHANGED <<phase, last, restarts, resub, runs, cont, consec, final, ev>>
+            /\ UNCHANGED <<phase, last, restarts, resub, runs, launched, cont, consec, final, ev>>
 
 (* the action the harness performed; the hook answer only matters when the specification reaches the package hook *)
 Performs(s) == CASE s.act = "Exit" -> Exit(s.reason)
